@@ -150,6 +150,7 @@ def get_facts(features=(), repo=None):
             try:
                 with open(out_json) as fh:
                     data = json.load(fh)
+                os.utime(out_json, None)       # least-recently-used eviction
             except Exception:
                 cached = False
         if not cached:
@@ -157,7 +158,9 @@ def get_facts(features=(), repo=None):
             # keep the cache small
             fdir = os.path.join(WORK, "facts")
             files = sorted((os.path.getmtime(os.path.join(fdir, f)), f) for f in os.listdir(fdir) if f.endswith(".json"))
-            for _, f in files[:-12]:
+            # (the thorough tier evaluates every benign variant once per property: the facts of a variant are extracted once
+            # and shared by the eighteen self-validation runs; ~5 MB per tree)
+            for _, f in files[:-int(os.environ.get("COBWEB_FACTS_CACHE", "400"))]:
                 try:
                     os.remove(os.path.join(fdir, f))
                 except OSError:
